@@ -7,6 +7,8 @@ import (
 	"path/filepath"
 	"strings"
 	"time"
+
+	"github.com/taskctl/taskctl/pkg/verifhooks"
 )
 
 func init() { props["C18"] = runC18 }
@@ -230,6 +232,15 @@ func mutations(c refCfg, rng *rand.Rand) []refCfg {
 			m.pipelines[p][k].deps = append(m.pipelines[p][k].deps, "ghost")
 			m.mut = fmt.Sprintf("stage %s.%s depends_on unknown stage", p, s.name)
 			out = append(out, m)
+			// the unknown name at every other position of the list (before names of stages declared earlier and later)
+			for pos := 0; pos < len(s.deps); pos++ {
+				mp := cloneCfg(c)
+				d := append([]string{}, s.deps[:pos]...)
+				d = append(append(d, "ghost"), s.deps[pos:]...)
+				mp.pipelines[p][k].deps = d
+				mp.mut = fmt.Sprintf("stage %s.%s depends_on unknown stage (entry %d of %d)", p, s.name, pos+1, len(d))
+				out = append(out, mp)
+			}
 			// near misses of the name of an existing stage of the same pipeline: none of them is that stage
 			if k > 0 || len(c.pipelines[p]) > 1 {
 				other := c.pipelines[p][(k+1)%len(c.pipelines[p])].name
@@ -508,6 +519,15 @@ func runC18(col *Collector, tier string, seed int64) {
 			tags = append(tags, "valid-shared-inclusion")
 		}
 	}
+	// an unknown name next to names of stages declared LATER than the one that depends on them, at every position
+	for v := 0; v < 6; v++ {
+		c := refCfg{tasks: []string{"t0", "t1"}, pipelines: map[string][]refStage{}, watchers: map[string]string{}, porder: []string{"p"}}
+		deps := [][]string{{"ghost", "late"}, {"late", "ghost"}, {"ghost", "late", "later"}, {"late", "ghost", "later"}, {"late", "later", "ghost"}, {"ghost", "ghost", "late"}}[v]
+		c.pipelines["p"] = []refStage{{name: "early", task: "t0", deps: deps}, {name: "late", task: "t1"}, {name: "later", task: "t0", deps: []string{"late"}}}
+		c.mut = fmt.Sprintf("stage p.early depends_on unknown stage among forward references %v", deps)
+		cases = append(cases, c)
+		tags = append(tags, "broken:p.early")
+	}
 	for i := 0; i < nbase; i++ {
 		forcePipes = map[int]int{0: 1, 1: 4, 2: 2}[i] // the first three: one pipeline, four, two; then as drawn
 		c := genValid(rng)
@@ -521,4 +541,74 @@ func runC18(col *Collector, tier string, seed int64) {
 		}
 	}
 	parallel(len(cases), 16, func(i int) { refCase(col, cases[i], tags[i]) })
+	for v := 0; v < 8; v++ {
+		secondFileCase(col, v)
+	}
+}
+
+// a file is judged on the definitions reachable from IT: `taskctl validate other.yaml` (and `-c other.yaml list`) run
+// in a project whose own tasks.yaml defines the very names other.yaml refers to but does not define. Variants 0-2:
+// stage -> task, stage -> pipeline, watcher -> task; 3: other.yaml is sound; 4-7: the same through one Config that a
+// first Loader has already filled from the project file.
+func secondFileCase(col *Collector, variant int) {
+	dir := newScratchDir("c18s")
+	defer os.RemoveAll(dir)
+	project := "tasks:\n  build:\n    command: [\"true\"]\n  test:\n    command: [\"true\"]\npipelines:\n  ci:\n    - task: build\n    - task: test\n      depends_on: [build]\n"
+	oc := refCfg{tasks: []string{"pack"}, pipelines: map[string][]refStage{}, watchers: map[string]string{}, porder: []string{"release"}}
+	switch variant % 4 {
+	case 0:
+		oc.pipelines["release"] = []refStage{{name: "pack", task: "pack"}, {name: "build", task: "build", deps: []string{"pack"}}}
+	case 1:
+		oc.pipelines["release"] = []refStage{{name: "pack", task: "pack"}, {name: "ci", pipeline: "ci", deps: []string{"pack"}}}
+	case 2:
+		oc.pipelines["release"] = []refStage{{name: "pack", task: "pack"}}
+		oc.watchers["w"] = "build"
+	case 3:
+		oc.pipelines["release"] = []refStage{{name: "pack", task: "pack"}}
+	}
+	other := oc.yaml()
+	sound := wellFormed(oc)
+	os.WriteFile(filepath.Join(dir, "tasks.yaml"), []byte(project), 0644)
+	otherPath := filepath.Join(dir, "other.yaml")
+	os.WriteFile(otherPath, []byte(other), 0644)
+	cs := Case{Tags: []string{"second-file"}, NonTrivial: true}
+	cs.Line = oc.line()
+	accepted := false
+	if variant < 4 {
+		cs.Replay = fmt.Sprintf("in a project whose tasks.yaml is %s: `taskctl validate other.yaml` with other.yaml = %s", strings.ReplaceAll(project, "\n", "\\n"), strings.ReplaceAll(other, "\n", "\\n"))
+		r := runTaskctl(dir, nil, 10*time.Second, "validate", otherPath)
+		accepted = r.exit == 0 && strings.Contains(r.stdout, "file is valid")
+		if r.panicked || r.timedOut {
+			cs.Fail, cs.Sig = fmt.Sprintf("validate crashed or hung: exit=%d timeout=%v %s", r.exit, r.timedOut, lastLines(r.stderr, 2)), "c18-load-crash"
+		}
+	} else {
+		cs.Replay = fmt.Sprintf("one Config: a first Loader loads %s, a second Loader on the same Config loads %s", strings.ReplaceAll(project, "\n", "\\n"), strings.ReplaceAll(other, "\n", "\\n"))
+		func() {
+			defer func() {
+				if p := recover(); p != nil {
+					cs.Fail, cs.Sig = fmt.Sprint("loader panicked: ", p), "c18-load-crash"
+				}
+			}()
+			cfg := verifhooks.NewConfig()
+			l1 := verifhooks.NewConfigLoader(cfg)
+			l1.VerifSetDirs(dir, filepath.Join(dir, "nohome"))
+			if _, err := l1.Load(filepath.Join(dir, "tasks.yaml")); err != nil {
+				cs.Fail, cs.Sig = "the project file does not load: "+err.Error(), "c18-rejected-valid"
+				return
+			}
+			l2 := verifhooks.NewConfigLoader(cfg)
+			l2.VerifSetDirs(dir, filepath.Join(dir, "nohome"))
+			_, err := l2.Load(otherPath)
+			accepted = err == nil
+		}()
+	}
+	cs.Impl = map[bool]string{true: "accept", false: "reject"}[accepted]
+	switch {
+	case cs.Fail != "":
+	case accepted && !sound:
+		cs.Fail, cs.Sig = "other.yaml refers to a name that no file reachable from it defines (the project's own file does) and was accepted", "c18-accepted-dangling"
+	case !accepted && sound:
+		cs.Fail, cs.Sig = "a sound second file was rejected", "c18-rejected-valid"
+	}
+	col.Add(cs)
 }
